@@ -68,6 +68,8 @@ type ledGen struct {
 	// again; foreign coinbase outputs are spent only when buried deeper than any reorganisation reaches
 	dead     map[string]bool
 	maxReorg int
+	// C01 (see gen_led_c01.go): the chain the wallet has synced, mirrored to count notification classes
+	synced []string
 }
 
 func (l *ledGen) op(class, f string, a ...interface{}) { l.g.Op(class, f, a...) }
@@ -414,6 +416,7 @@ func (l *ledGen) buildBlock(parent string) *gBlock {
 	var names []string
 	for _, t := range b.txs {
 		names = append(names, t.name)
+		l.countBlockTx(t)
 	}
 	// txs confirmed here leave the pool
 	var np []*gTx
@@ -452,6 +455,7 @@ func (l *ledGen) reorgTo(depth, extra int) {
 	}
 	for i := 0; i < depth; i++ {
 		ob := l.tip()
+		l.countUndone(ob)
 		for _, t := range ob.txs {
 			if !t.cb {
 				l.orphanT = append(l.orphanT, t)
@@ -481,6 +485,7 @@ func (l *ledGen) processOne() {
 	}
 	b := l.queue[0]
 	l.queue = l.queue[1:]
+	l.noteNotify(b)
 	l.op("notify", "notify %s", b)
 }
 
@@ -589,6 +594,10 @@ func genLed(g *Gen) {
 				l.recv()
 			case k < 17:
 				l.newAddr(l.wallets[g.Rng.Intn(len(l.wallets))])
+			case k >= 17 && k <= 18 && g.Prop != "C09" && lazy:
+				// restart + catch-up by height, skipped notifications, duplicate notifications
+				// (C09 keeps its volatile seen-set: no restarts there)
+				l.disturb()
 			default:
 				l.processOne()
 			}
